@@ -284,6 +284,13 @@ func (s *srvRun) stop() {
 
 // round injects one packet at the current instant and observes until the handler has finished.
 func (s *srvRun) round(pkt []byte, arp []arpResp) roundObs {
+	// an answer that arrives at the very instant one 200 ms try ends and the next begins is seen or missed depending on
+	// which of the two happens first at that instant: keep answers off those instants
+	for i := range arp {
+		if arp[i].delay%(200*time.Millisecond) == 0 {
+			arp[i].delay += time.Millisecond
+		}
+	}
 	s.arp = map[uint32]arpResp{}
 	for _, a := range arp {
 		s.arp[a.ip] = a
